@@ -396,7 +396,7 @@ pub fn gen_session(cs: &mut ChoiceStream, g: &GenCfg) -> Generated {
     let mut opts = ConnOpts::default();
     opts.frame_max = cfm;
     opts.heartbeat = g.heartbeat;
-    let tuning = Tuning { bound: *pick(cs, "bound", &[16usize, 1, 2]), high: 16 << 20, low: 0 };
+    let tuning = Tuning { bound: *pick(cs, "bound", &[16usize, 1, 2, 0]), high: 16 << 20, low: 0 };
     let plan = SessionPlan { opts, tuning, threads, owner_ops: vec![], close: CloseKind::Close, join_before_close: true };
     Generated { plan, net, broker, sched, frame_max }
 }
